@@ -468,7 +468,7 @@ def plan(tier, seed):
 def run(ctx):
     ctx.level = "model_checking"
     pl = plan(ctx.tier, ctx.seed)
-    cap = float(os.environ.get("VERIF_C16_CAP_S") or (11.0 * 60 if ctx.tier == "thorough" else 68.0))
+    cap = float(os.environ.get("VERIF_C16_CAP_S") or (14.0 * 60 if ctx.tier == "thorough" else 120.0))
     hard = ctx.t0 + cap
     if ctx.deadline:
         hard = min(hard, ctx.deadline)
